@@ -340,6 +340,28 @@ def _run_sk(job):
            "nonint": rng.choice(["1", 1.0, None, b"\x01", (1,)])}[cls]
     if cls == "bits":
         val = min(max(val, 1), r - 1)
+    if cls == "nonint":
+        # values that compare / hash equal to a valid key used just before in the same interpreter, and
+        # unhashable ones: every one of them must be refused with ValidationError by every entry point
+        from decimal import Decimal
+        from fractions import Fraction
+        row = {"op": "sk", "cls": cls, "suite": suite, "raised": 1, "ok": 0, "bitlen": -1}
+        try:
+            for base in (1, 2, 3, r - 2):
+                S.SkToPk(base)
+                S.Sign(base, b"prime the caches")
+            for bad in (1.0, 2.0, Fraction(2), Decimal(3), Fraction(r - 2), "1", None, b"\x01", [2], {2}, (1,), 2.5, True if False else 1j):
+                for fn in ((lambda: S.SkToPk(bad)), (lambda: S.Sign(bad, b"m"))) + \
+                        (((lambda: S.PopProve(bad)),) if suite == "pop" else ()):
+                    try:
+                        fn()
+                        row["raised"] = 0
+                        row["exc"] = f"BADVALUE:accepted non-integer key {bad!r}"
+                    except ValidationError:
+                        pass
+        except Exception as e:  # noqa: BLE001
+            row["exc"] = f"EXC:{type(e).__name__}:{e}"[:120]
+        return row
     msg = rng.randbytes(rng.choice(World.MLENS))
     row = {"op": "sk", "cls": cls, "suite": suite, "raised": 0, "ok": 0, "bitlen": val.bit_length() if isinstance(val, int) else -1}
     try:
